@@ -124,6 +124,7 @@ Inductive op :=
 | FieldValRw (f : nat)             (* f.val_rw() *)
 | FieldAsNumpyRw (f : nat)         (* f.asnumpy_rw() *)
 | FieldAdd (f g : nat)             (* f + g | f.unite(g) *)
+| FieldClone (f : nat)             (* pickle.loads(pickle.dumps(f)) | copy.deepcopy(f) *)
 | MkDiag (f : nat).                (* makeOp(f) | DiagonalOperator(f) *)
 
 Inductive exn := EValue | EType | EIndex.
@@ -277,6 +278,16 @@ Definition compile (fixd : bool) (L : nat) (s : st) (o : op) : list prim * res :
           | _, _ => ([], RBad)
           end
       | _, _ => ([], RBad)
+      end
+  (* pickle / deepcopy: a new buffer; NumPy restores the ndarray WRITEABLE (the flag is not part of
+     its pickle state); AnyArray.__dict__ comes back with _writeable = False and
+     AnyArray.__setstate__ (fixes/C07-2.patch) locks again:  if not self._writeable: self.lock() *)
+  | FieldClone f =>
+      match nth_error (flds s) f with
+      | Some a => match any_at s a with
+                  | Some y => (PFresh (nd_val s (and_ y)) true :: PWrap nN :: lockp fixd nN nA ++ [PFld nA], RFld nF)
+                  | None => ([], RBad) end
+      | None => ([], RBad)
       end
   (* DiagonalOperator.__init__ (spaces=None): self._ldiag = diagonal.val; _fill_rest: self._ldiag.lock() *)
   | MkDiag f =>
